@@ -8,7 +8,7 @@ if [ ! -e "$lane/.git" ]; then git -C /repo worktree add -q --detach "$lane" HEA
 cd "$lane" || exit 2
 git checkout -q --detach "$(git -C /repo rev-parse HEAD)" 2>/dev/null
 git checkout -q -- . ; rm -f leader/zz_demo_test.go internal/natsmock/zz_demo_test.go
-tag=$(head -1 "$demo" | sed -n 's#^//go:build \(.*\)$#\1#p'); tagarg=""; [ -n "$tag" ] && tagarg="-tags $tag"
+tag=$(head -1 "$demo" | sed -n 's#^//go:build \([A-Za-z0-9_]*\).*$#\1#p'); tagarg=""; [ -n "$tag" ] && tagarg="-tags $tag"
 pkg=$(grep -m1 '^package ' "$demo" | awk '{print $2}'); dir=leader; [ "$pkg" = natsmock ] && dir=internal/natsmock
 tests=$(grep -o '^func Test[A-Za-z0-9_]*' "$demo" | sed 's/func //' | paste -sd'|')
 race=""; case "$name" in C20-*) race="-race";; esac
